@@ -39,8 +39,8 @@ VARIABLES cfg,      \* configuration of the running store
           closed,   \* "open" | "closing" (Close called, the poller is on its way out) | "closed" (the poller is gone)
           ini,      \* construction in progress: [tried, missing, wait, wake, deadline, flush]
           poll,     \* Nil | [snap, todo, upd (Nil | Del | version), failed, waiters, leader, act]
-          lk,       \* [Names -> Nil | [leader, members, dead]] lookup flights (dead: the leader's context has ended)
-          rq,       \* [Names -> Nil | [kind, old, by]]              requests in flight at the service client
+          lk,       \* [Names -> Nil | [leader, members, dead, sent]] lookup flights (dead: the leader's context has ended; sent: its one request is out)
+          rq,       \* [Origins -> [Names -> Nil | [kind, old]]]     requests in flight at the service client, by who sent them
           call,     \* [Callers -> Nil | [kind, name, own, cancelled, start]]
           now,
           hist,     \* history: [served, inst, supplied]
@@ -59,7 +59,9 @@ NoDoc == [n \in Names |-> Nil]
 Proj(mm) == [n \in Names |-> IF IsRec(mm[n]) THEN [ver |-> mm[n].ver, la |-> mm[n].la] ELSE Nil]
 
 \* requests in flight, by origin ("init" | "poll" | "lookup")
-ReqsBy(b) == {k \in Names : rq[k] # Nil /\ rq[k].by = b}
+Origins == {"init", "poll", "lookup"}       \* a poll and a lookup may each have a request for the same name in flight
+NoReqs == [b \in Origins |-> [n \in Names |-> Nil]]
+ReqsBy(b) == {k \in Names : rq[b][k] # Nil}
 
 NoCfg == [declared |-> {}, allowLookup |-> FALSE, expiry |-> 0, hasCache |-> FALSE, fileClient |-> FALSE, auto |-> FALSE]
 NoIni == [tried |-> {}, missing |-> 0, wait |-> 1, wake |-> Nil, deadline |-> Nil, flush |-> FALSE]
@@ -100,7 +102,7 @@ Installed(h, n, v) == [h EXCEPT !.inst[n] = Append(@, v)]
 \* c: configuration; bad: a misconfiguration (no client, nothing declared without lookups, an empty name);
 \* deadline: absolute time at which the caller's context ends, or Nil.
 NewStore(c, bad, deadline, cc) ==      \* cc: the cache as the new store finds it
-  /\ phase \in {"config", "running", "failed"} /\ poll = Nil /\ \A n \in Names : (rq[n] = Nil /\ lk[n] = Nil)
+  /\ phase \in {"config", "running", "failed"} /\ poll = Nil /\ rq = NoReqs /\ \A n \in Names : lk[n] = Nil
   /\ closed # "closing"
   /\ \A k \in Callers : call[k] = Nil
   /\ cfg' = c /\ handles' = {} /\ closed' = "open"
@@ -128,7 +130,7 @@ InitCtxDone == ini.deadline # Nil /\ now >= ini.deadline
 InitReq(n) ==
   /\ phase = "init" /\ m[n] = Stub /\ n \notin ini.tried /\ ini.wake = Nil
   /\ ReqsBy("init") = {}
-  /\ rq' = [rq EXCEPT ![n] = [kind |-> "get", old |-> 0, by |-> "init"]]
+  /\ rq' = [rq EXCEPT !["init"][n] = [kind |-> "get", old |-> 0]]
   /\ ini' = [ini EXCEPT !.tried = @ \cup {n}]
   /\ out' = Event("req", [name |-> n, kind |-> "get", old |-> 0])
   /\ UNCHANGED <<cfg, svc, m, handles, cache, phase, closed, poll, lk, call, now, hist>>
@@ -138,18 +140,18 @@ InitFail ==      \* the caller's context ended: give up at once
   /\ UNCHANGED <<m, cache, hist>>
 
 InitResp(n, forceErr) ==
-  /\ phase = "init" /\ rq[n] # Nil /\ rq[n].by = "init"
-  /\ rq' = [rq EXCEPT ![n] = Nil]
-  /\ LET a == IF InitCtxDone THEN Ans("ctx", 0) ELSE Answer(n, rq[n], forceErr) IN
+  /\ phase = "init" /\ rq["init"][n] # Nil
+  /\ rq' = [rq EXCEPT !["init"][n] = Nil]
+  /\ LET a == IF InitCtxDone THEN Ans("ctx", 0) ELSE Answer(n, rq["init"][n], forceErr) IN
      IF a.k = "ctx"
-     THEN /\ InitFail /\ out' = Event("resp", [name |-> n, res |-> "ctx", ver |-> 0, ret |-> "err"])
+     THEN /\ InitFail /\ out' = Event("resp", [name |-> n, res |-> "ctx", ver |-> 0, ret |-> "err", force |-> forceErr])
      ELSE IF a.k = "err"
      THEN /\ ini' = [ini EXCEPT !.missing = @ + 1]
-          /\ out' = Event("resp", [name |-> n, res |-> "err", ver |-> 0, ret |-> "none"])
+          /\ out' = Event("resp", [name |-> n, res |-> "err", ver |-> 0, ret |-> "none", force |-> forceErr])
           /\ UNCHANGED <<m, phase, cache, hist>>
      ELSE /\ m' = [m EXCEPT ![n] = [ver |-> a.v, la |-> Sec(now), declared |-> TRUE]]
           /\ hist' = Installed(Served(n, a.v), n, a.v)
-          /\ out' = Event("resp", [name |-> n, res |-> "val", ver |-> a.v, ret |-> "none"])
+          /\ out' = Event("resp", [name |-> n, res |-> "val", ver |-> a.v, ret |-> "none", force |-> forceErr])
           /\ UNCHANGED <<ini, phase, cache>>
   /\ UNCHANGED <<cfg, svc, handles, closed, poll, lk, call, now>>
 
@@ -184,15 +186,16 @@ Expired(n) ==
   /\ now - m[n].la * 1000 > cfg.expiry
 
 \* Refresh / a tick of the poller: start a round (snapshot under the lock) or join the one in flight
-Refresh(c) ==
+\* (deadline: when the caller's context ends, or Nil; the poller's context ends at Close)
+Refresh(c, deadline) ==
   /\ phase = "running"
   /\ (c \in Callers => call[c] = Nil) /\ (c = "poller" => cfg.auto /\ closed = "open")
   /\ IF poll = Nil
      THEN poll' = [snap |-> [n \in Names |-> IF IsRec(m[n]) THEN [ver |-> m[n].ver, expired |-> Expired(n)] ELSE Nil],
                    todo |-> Known(m), upd |-> [n \in Names |-> Nil], failed |-> FALSE,
-                   waiters |-> {c}, leader |-> c, act |-> [n \in Names |-> {svc[n].ver}]]
+                   waiters |-> {c}, leader |-> c, dead |-> FALSE, act |-> [n \in Names |-> {svc[n].ver}]]
      ELSE poll' = [poll EXCEPT !.waiters = @ \cup {c}]
-  /\ call' = IF c \in Callers THEN [call EXCEPT ![c] = [kind |-> "refresh", name |-> "", own |-> Nil, cancelled |-> FALSE, expired |-> FALSE, start |-> now, fallback |-> FALSE]] ELSE call
+  /\ call' = IF c \in Callers THEN [call EXCEPT ![c] = [kind |-> "refresh", name |-> "", own |-> deadline, cancelled |-> FALSE, expired |-> FALSE, start |-> now, tries |-> 0, fallback |-> FALSE]] ELSE call
   /\ out' = Event("refresh", [caller |-> c, started |-> (poll = Nil)])
   /\ UNCHANGED <<cfg, svc, m, handles, cache, phase, closed, ini, lk, rq, now, hist>>
 
@@ -205,23 +208,33 @@ PollStep(n) ==
      THEN /\ poll' = [poll EXCEPT !.todo = @ \ {n}, !.upd[n] = Del]
           /\ out' = Event("expire", [name |-> n])
           /\ UNCHANGED rq
-     ELSE /\ rq' = [rq EXCEPT ![n] = [kind |-> "gic", old |-> poll.snap[n].ver, by |-> "poll"]]
+     ELSE /\ rq' = [rq EXCEPT !["poll"][n] = [kind |-> "gic", old |-> poll.snap[n].ver]]
           /\ out' = Event("req", [name |-> n, kind |-> "gic", old |-> poll.snap[n].ver])
           /\ UNCHANGED poll
   /\ UNCHANGED <<cfg, svc, m, handles, cache, phase, closed, ini, lk, call, now, hist>>
 
-\* the poller's context ends at Close; an API caller's Refresh context is not modelled as ending
-PollCtxDone == poll.leader = "poller" /\ closed # "open"
+\* a round runs under the context of the caller that started it: the poller's ends at Close, an API
+\* caller's when it is cancelled or its deadline passes -- the requests of the round then fail, so the round
+\* fails as a whole and nothing is applied; callers that joined it get that error
+PollCtxDone == (poll.leader = "poller" /\ closed # "open") \/ poll.dead
+
+\* a Refresh caller whose own context has ended stops waiting at once; the round goes on without it
+RefreshGiveUp(c) ==
+  /\ c \in Callers /\ call[c] # Nil /\ call[c].kind = "refresh" /\ (call[c].cancelled \/ call[c].expired)
+  /\ call' = [call EXCEPT ![c] = Nil]
+  /\ poll' = IF poll = Nil THEN Nil ELSE [poll EXCEPT !.waiters = @ \ {c}]
+  /\ out' = Event("ret", [call |-> "refresh", caller |-> c, res |-> "ctx"])
+  /\ UNCHANGED <<cfg, svc, m, handles, cache, phase, closed, ini, lk, rq, now, hist>>
 
 PollResp(n, forceErr) ==
-  /\ poll # Nil /\ rq[n] # Nil /\ rq[n].by = "poll"
-  /\ rq' = [rq EXCEPT ![n] = Nil]
-  /\ LET a == IF PollCtxDone THEN Ans("err", 0) ELSE Answer(n, rq[n], forceErr) IN
+  /\ poll # Nil /\ rq["poll"][n] # Nil
+  /\ rq' = [rq EXCEPT !["poll"][n] = Nil]
+  /\ LET a == IF PollCtxDone THEN Ans("err", 0) ELSE Answer(n, rq["poll"][n], forceErr) IN
      /\ poll' = [poll EXCEPT !.todo = @ \ {n},
                              !.failed = @ \/ (a.k = "err"),
                              !.upd[n] = IF a.k = "val" /\ a.v # poll.snap[n].ver THEN a.v ELSE @]
      /\ hist' = IF a.k = "val" THEN Served(n, a.v) ELSE hist
-     /\ out' = Event("resp", [name |-> n, res |-> a.k, ver |-> a.v, ret |-> "none"])
+     /\ out' = Event("resp", [name |-> n, res |-> a.k, ver |-> a.v, ret |-> "none", force |-> forceErr, kind |-> "gic"])
   /\ UNCHANGED <<cfg, svc, m, handles, cache, phase, closed, ini, lk, call, now>>
 
 HasUpd == \E n \in Names : poll.upd[n] # Nil
@@ -273,12 +286,12 @@ Lookup(k, n, deadline) ==
   /\ phase = "running" /\ call[k] = Nil
   /\ IF IsRec(m[n])
      THEN /\ handles' = handles \cup {n}
-          /\ out' = Event("ret", [call |-> "lookup", caller |-> k, res |-> "ok"])
+          /\ out' = Event("ret", [call |-> "lookup", caller |-> k, res |-> "ok", name |-> n])
           /\ UNCHANGED <<call, lk, rq>>
      ELSE IF ~cfg.allowLookup
-     THEN /\ out' = Event("ret", [call |-> "lookup", caller |-> k, res |-> "err"])
+     THEN /\ out' = Event("ret", [call |-> "lookup", caller |-> k, res |-> "err", name |-> n])
           /\ UNCHANGED <<handles, call, lk, rq>>
-     ELSE /\ call' = [call EXCEPT ![k] = [kind |-> "lookup", name |-> n, cancelled |-> FALSE, expired |-> FALSE, start |-> now,
+     ELSE /\ call' = [call EXCEPT ![k] = [kind |-> "lookup", name |-> n, cancelled |-> FALSE, expired |-> FALSE, start |-> now, tries |-> 0,
                                           fallback |-> (deadline = Nil),
                                           own |-> IF deadline = Nil THEN now + 300000 ELSE deadline]]
           /\ out' = Event("lookup", [caller |-> k, name |-> n])
@@ -289,17 +302,26 @@ InFlight(k) == \E n \in {x \in Names : lk[x] # Nil} : k \in lk[n].members
 Waiting(k) == call[k] # Nil /\ call[k].kind = "lookup" /\ ~InFlight(k)
 
 \* enter the flight for the name: lead it (one request, governed by the leader's context) or join it
-NewFlight(k) == [leader |-> k, members |-> {k}, dead |-> FALSE]
+\* (the first entry does not look at the caller's context -- a caller cancelled before it got here still
+\*  enters, and a request it leads is doomed; re-entries after somebody else's cancellation do look)
+NewFlight(k) == [leader |-> k, members |-> {k}, dead |-> ~CtxAlive(k), sent |-> FALSE]
 LookupEnter(k) ==
-  /\ Waiting(k) /\ CtxAlive(k)
+  /\ Waiting(k) /\ (call[k].tries = 0 \/ CtxAlive(k))
   /\ LET n == call[k].name IN
      IF lk[n] = Nil
      THEN /\ lk' = [lk EXCEPT ![n] = NewFlight(k)]
-          /\ rq' = [rq EXCEPT ![n] = [kind |-> "get", old |-> 0, by |-> "lookup"]]
-          /\ out' = Event("req", [name |-> n, kind |-> "get", old |-> 0])
+          /\ out' = Event("lead", [caller |-> k, name |-> n])
      ELSE /\ lk' = [lk EXCEPT ![n].members = @ \cup {k}]
           /\ out' = Event("join", [caller |-> k, name |-> n])
-          /\ UNCHANGED rq
+  /\ call' = [call EXCEPT ![k].tries = 1]
+  /\ UNCHANGED <<cfg, svc, m, handles, cache, phase, closed, ini, poll, rq, now, hist>>
+
+\* the flight's own goroutine sends the one request of the flight (the leader may already have given up)
+FlightSend(n) ==
+  /\ lk[n] # Nil /\ ~lk[n].sent
+  /\ lk' = [lk EXCEPT ![n].sent = TRUE]
+  /\ rq' = [rq EXCEPT !["lookup"][n] = [kind |-> "get", old |-> 0]]
+  /\ out' = Event("req", [name |-> n, kind |-> "get", old |-> 0])
   /\ UNCHANGED <<cfg, svc, m, handles, cache, phase, closed, ini, poll, call, now, hist>>
 
 FlightCtxDone(n) == lk[n].dead
@@ -308,47 +330,49 @@ FlightCtxDone(n) == lk[n].dead
 \* handle), a service error (reported to every member, nothing installed, no retry), or the leader's
 \* context ended (the members still waiting go back to LookupEnter with their own contexts)
 LookupResp(n, forceErr) ==
-  /\ rq[n] # Nil /\ rq[n].by = "lookup" /\ lk[n] # Nil
-  /\ LET a == IF FlightCtxDone(n) THEN Ans("ctx", 0) ELSE Answer(n, rq[n], forceErr) IN
-     /\ rq' = [rq EXCEPT ![n] = Nil] /\ lk' = [lk EXCEPT ![n] = Nil]
+  /\ rq["lookup"][n] # Nil /\ lk[n] # Nil
+  /\ LET a == IF FlightCtxDone(n) THEN Ans("ctx", 0) ELSE Answer(n, rq["lookup"][n], forceErr) IN
+     /\ rq' = [rq EXCEPT !["lookup"][n] = Nil] /\ lk' = [lk EXCEPT ![n] = Nil]
      /\ IF a.k = "ctx"
-        THEN /\ out' = Event("lookupend", [name |-> n, res |-> "ctx", ver |-> 0, returned |-> {}, retry |-> lk[n].members])
+        THEN /\ out' = Event("lookupend", [name |-> n, res |-> "ctx", ver |-> 0, returned |-> {}, retry |-> lk[n].members, force |-> forceErr])
              /\ UNCHANGED <<m, handles, cache, hist, call>>
         ELSE IF a.k = "err"
         THEN /\ call' = [k \in Callers |-> IF k \in lk[n].members THEN Nil ELSE call[k]]
-             /\ out' = Event("lookupend", [name |-> n, res |-> "err", ver |-> 0, returned |-> lk[n].members, retry |-> {}])
+             /\ out' = Event("lookupend", [name |-> n, res |-> "err", ver |-> 0, returned |-> lk[n].members, retry |-> {}, force |-> forceErr])
              /\ UNCHANGED <<m, handles, cache, hist>>
         ELSE /\ m' = [m EXCEPT ![n] = [ver |-> a.v, la |-> Sec(now), declared |-> FALSE]]
              /\ handles' = handles \cup {n}
              /\ cache' = Flush(m')
              /\ hist' = Installed(Served(n, a.v), n, a.v)
              /\ call' = [k \in Callers |-> IF k \in lk[n].members THEN Nil ELSE call[k]]
-             /\ out' = Event("lookupend", [name |-> n, res |-> "val", ver |-> a.v, returned |-> lk[n].members, retry |-> {}])
+             /\ out' = Event("lookupend", [name |-> n, res |-> "val", ver |-> a.v, returned |-> lk[n].members, retry |-> {}, force |-> forceErr])
   /\ UNCHANGED <<cfg, svc, phase, closed, ini, poll, now>>
 
 \* a caller whose own context has ended stops waiting at once, wherever it is; a flight it leads
 \* goes on without it until its request notices the dead context
 LookupGiveUp(k) ==
-  /\ call[k] # Nil /\ call[k].kind = "lookup" /\ ~CtxAlive(k)
+  /\ call[k] # Nil /\ call[k].kind = "lookup" /\ ~CtxAlive(k) /\ call[k].tries > 0
   /\ call' = [call EXCEPT ![k] = Nil]
   /\ lk' = [n \in Names |-> IF lk[n] # Nil THEN [lk[n] EXCEPT !.members = @ \ {k}] ELSE Nil]
   /\ out' = Event("ret", [call |-> "lookup", caller |-> k, res |-> "ctx"])
   /\ UNCHANGED <<cfg, svc, m, handles, cache, phase, closed, ini, poll, rq, now, hist>>
 
-\* the deadline timer of caller k's context fires (its own deadline, or the five-minute fallback)
+\* the deadline timer of caller k's context fires (its own deadline, or the five-minute fallback of a lookup)
+DeadFlights(k) == [n \in Names |-> IF lk[n] # Nil THEN (IF lk[n].leader = k THEN [lk[n] EXCEPT !.dead = TRUE] ELSE lk[n]) ELSE Nil]
+DeadPoll(k) == IF poll # Nil /\ poll.leader = k THEN [poll EXCEPT !.dead = TRUE] ELSE poll
 CtxExpire(k) ==
-  /\ call[k] # Nil /\ call[k].kind = "lookup" /\ ~call[k].expired /\ now >= call[k].own
+  /\ call[k] # Nil /\ call[k].own # Nil /\ ~call[k].expired /\ now >= call[k].own
   /\ call' = [call EXCEPT ![k].expired = TRUE]
-  /\ lk' = [n \in Names |-> IF lk[n] # Nil THEN (IF lk[n].leader = k THEN [lk[n] EXCEPT !.dead = TRUE] ELSE lk[n]) ELSE Nil]
+  /\ lk' = DeadFlights(k) /\ poll' = DeadPoll(k)
   /\ out' = Event("ctxexpire", [caller |-> k])
-  /\ UNCHANGED <<cfg, svc, m, handles, cache, phase, closed, ini, poll, rq, now, hist>>
+  /\ UNCHANGED <<cfg, svc, m, handles, cache, phase, closed, ini, rq, now, hist>>
 
 Cancel(k) ==
-  /\ call[k] # Nil /\ call[k].kind = "lookup" /\ ~call[k].cancelled
+  /\ call[k] # Nil /\ ~call[k].cancelled
   /\ call' = [call EXCEPT ![k].cancelled = TRUE]
-  /\ lk' = [n \in Names |-> IF lk[n] # Nil THEN (IF lk[n].leader = k THEN [lk[n] EXCEPT !.dead = TRUE] ELSE lk[n]) ELSE Nil]
+  /\ lk' = DeadFlights(k) /\ poll' = DeadPoll(k)
   /\ out' = Event("cancel", [caller |-> k])
-  /\ UNCHANGED <<cfg, svc, m, handles, cache, phase, closed, ini, poll, rq, now, hist>>
+  /\ UNCHANGED <<cfg, svc, m, handles, cache, phase, closed, ini, rq, now, hist>>
 
 (* --- Close, cache faults, time ------------------------------------------------------------------ *)
 \* Close cancels the poller's context and waits for it; the poller, on its way out, rewrites the cache
@@ -356,13 +380,19 @@ Cancel(k) ==
 \* Without a background poller Close has nothing to do.
 Close ==
   /\ phase = "running" /\ closed = "open"
-  /\ (IF poll = Nil THEN TRUE ELSE poll.leader # "poller")   \* Close waits for the poller; the driver closes between polls
   /\ closed' = IF cfg.auto THEN "closing" ELSE "closed"
   /\ out' = IF cfg.auto THEN Event("closing", [x |-> 0]) ELSE Event("close", [flushed |-> FALSE])
   /\ UNCHANGED <<cfg, svc, m, handles, cache, phase, ini, poll, lk, rq, call, now, hist>>
 
+\* a poller caught in a round (its own, whose requests now fail, or one it joined) stops waiting for it
+PollerGiveUp ==
+  /\ closed = "closing" /\ poll # Nil /\ "poller" \in poll.waiters
+  /\ poll' = [poll EXCEPT !.waiters = @ \ {"poller"}]
+  /\ out' = Event("ret", [call |-> "refresh", caller |-> "poller", res |-> "ctx"])
+  /\ UNCHANGED <<cfg, svc, m, handles, cache, phase, closed, ini, lk, rq, call, now, hist>>
+
 PollerExit ==
-  /\ closed = "closing"
+  /\ closed = "closing" /\ (IF poll = Nil THEN TRUE ELSE "poller" \notin poll.waiters)
   /\ closed' = "closed"
   /\ cache' = Flush(m)
   /\ out' = Event("close", [flushed |-> Flushes])
@@ -377,7 +407,7 @@ CacheFault(w) ==
 Timers ==
   (IF phase = "init" /\ ini.wake # Nil THEN {ini.wake} ELSE {})
   \cup (IF phase = "init" /\ ini.deadline # Nil /\ ini.deadline > now THEN {ini.deadline} ELSE {})
-  \cup {call[k].own : k \in {j \in Callers : call[j] # Nil /\ call[j].kind = "lookup" /\ call[j].own > now}}
+  \cup {call[k].own : k \in {j \in Callers : call[j] # Nil /\ call[j].own # Nil /\ call[j].own > now}}
 
 \* Code steps take no (virtual) time: the clock does not move while one is due.
 Urgent ==
@@ -387,8 +417,10 @@ Urgent ==
   \/ (phase = "init" /\ InitCtxDone /\ ReqsBy("init") # {})         \* the client honours the context
   \/ (poll # Nil /\ NoPollReq)                                                                     \* next request / end of round
   \/ (\E k \in Callers : Waiting(k))
-  \/ (\E k \in {j \in Callers : call[j] # Nil} : call[k].kind = "lookup" /\ ~call[k].expired /\ now >= call[k].own)   \* a timer is due
-  \/ (\E k \in {j \in Callers : call[j] # Nil} : call[k].kind = "lookup" /\ ~CtxAlive(k))   \* a caller gives up at once
+  \/ (\E n \in Names : lk[n] # Nil /\ ~lk[n].sent)
+  \/ (\E k \in {j \in Callers : call[j] # Nil} : call[k].own # Nil /\ ~call[k].expired /\ now >= call[k].own)   \* a timer is due
+  \/ (\E k \in {j \in Callers : call[j] # Nil} : ~CtxAlive(k))                              \* a caller gives up at once
+  \/ (poll # Nil /\ PollCtxDone /\ ReqsBy("poll") # {})                                     \* the client honours the context
   \/ (\E n \in ReqsBy("lookup") : FlightCtxDone(n))                                         \* the client honours the context
 
 Advance(t) ==
@@ -400,7 +432,7 @@ Advance(t) ==
 (* --- initial state ---------------------------------------------------------------------------------- *)
 Init ==
   /\ cfg = NoCfg /\ m = [n \in Names |-> Nil] /\ handles = {} /\ phase = "config" /\ closed = "open"
-  /\ ini = NoIni /\ poll = Nil /\ lk = [n \in Names |-> Nil] /\ rq = [n \in Names |-> Nil]
+  /\ ini = NoIni /\ poll = Nil /\ lk = [n \in Names |-> Nil] /\ rq = NoReqs
   /\ call = [k \in Callers |-> Nil] /\ now = 0
   /\ hist = [served |-> [n \in Names |-> {}], inst |-> [n \in Names |-> <<>>], supplied |-> {}]
   /\ out = [ev |-> "init"]
@@ -437,7 +469,7 @@ CacheVersions ==
         \A n \in Names : (cache.doc[n] # Nil) = IsRec(m[n]) /\ (IsRec(m[n]) => cache.doc[n].ver = m[n].ver)
 
 \* C16: no request is ever sent for an undeclared name when lookups are disabled
-LookupGate == ~cfg.allowLookup => \A n \in {x \in Names : rq[x] # Nil} : (n \in cfg.declared \/ IsRec(m[n]))
+LookupGate == ~cfg.allowLookup => \A n \in {x \in Names : \E b \in Origins : rq[b][x] # Nil} : (n \in cfg.declared \/ IsRec(m[n]))
 \* C16: a caller whose context has no deadline is answered within five minutes
 Bounded == \A k \in {j \in Callers : call[j] # Nil} :
              call[k].kind = "lookup" => (now <= call[k].own /\ (call[k].fallback => call[k].own = call[k].start + 300000))
